@@ -798,6 +798,18 @@ def degenerate(ctx, c):
                     if (p or "").startswith(EXPR + "::") and vn in allowed:
                         n += 1
                         ok = path in (builders.CTX + "::" + allowed[vn], "patronus::expr::transform::update_expr_children")
+                        if not ok and vn in ("BVZeroExt", "BVSignExt") and path.startswith(builders.CTX + "::"):
+                            # another Context method may build the node when it performs the normalisation itself: the site runs only under `by != 0` for the `by` it stores
+                            ix_ = Index(f["body"])
+                            byv = None
+                            if x["k"] == "struct":
+                                byv = [fl_["e"] for fl_ in x["fields"] if fl_["name"] == "by"]
+                                byv = byv[0] if byv else None
+                            for cnd, pol in norm_.path_conditions(ix_, x):
+                                if byv is not None and not pol and cnd.get("k") == "binary" and cnd["op"] == "==" and \
+                                        ((local_id(cnd["l"]) is not None and local_id(cnd["l"]) == local_id(byv) and peel(cnd["r"]).get("v") == 0) or
+                                         (local_id(cnd["r"]) is not None and local_id(cnd["r"]) == local_id(byv) and peel(cnd["l"]).get("v") == 0)):
+                                    ok = True
                         ctx.inst("R05.4", "constructs:%s in %s" % (vn, path), ok, x["sp"], "%s constructs Expr::%s directly, bypassing the normalising builder: a full-range slice / extension by 0 would be written with unbalanced parentheses or a wrong coercion" % (path, vn))
     ctx.floor("R05.4", "constructions of BVSlice/BVZeroExt/BVSignExt", n, 6)
     add = c.fns.get(builders.ADD_EXPR)
